@@ -42,3 +42,14 @@ m('M23', INT, "        if end is not None and not isinstance(self._locate_period
 m('M24', INT, "                tol=tol,\n                offset=offset,\n                failures=failures,\n                errors=errors,\n                catch_first_error=catch_first_error,\n                **kwargs,\n            )\n\n        return labels, indexes, solved", "                tol=tol,\n                failures=failures,\n                errors=errors,\n                catch_first_error=catch_first_error,\n                **kwargs,\n            )\n\n        return labels, indexes, solved", ['C05'], 'solve() drops offset')
 m('M25', INT, "            indexes[i] = t\n            labels[i] = period\n            solved[i] = self.solve_t(\n                t,\n                min_iter=min_iter,", "            indexes[i] = t\n            labels[i] = period\n            solved[i] = self.solve_t(\n                t,\n                min_iter=min_iter if i else 0,", ['C05'], 'first period ignores min_iter')
 m('M26', INT, "        t = self._locate_period_in_span(period)\n\n        if not isinstance(t, int):\n            raise KeyError(\n                f'Invalid `period` argument: unable to convert to an integer '\n                f'(a single location in `self.span`). '\n                f'`period` resolved to type {type(t)} with value {t}'\n            )\n\n        return self.solve_t(\n            t,\n            min_iter=min_iter,\n            max_iter=max_iter,\n            tol=tol,\n            offset=offset,\n            failures=failures,", "        t = self._locate_period_in_span(period)\n\n        if not isinstance(t, int):\n            raise KeyError(\n                f'Invalid `period` argument: unable to convert to an integer '\n                f'(a single location in `self.span`). '\n                f'`period` resolved to type {type(t)} with value {t}'\n            )\n\n        return self.solve_t(\n            t,\n            min_iter=min_iter,\n            max_iter=max_iter,\n            tol=tol,\n            offset=offset,\n            failures='ignore',", ['C05'], 'solve_period swallows failures=')
+
+# ---- frame and reads (C04)
+PAR = 'fsic/parser.py'
+m('M08', MOD, "        # Optionally copy initial values from another period\n        if offset:\n            t_check = t\n", "        # Optionally copy initial values from another period\n        if offset and errors == 'raise':\n            pass\n        if offset:\n            t_check = t\n", [], 'placeholder')
+m('M30', MOD, "        if t_check < self.lags:\n            raise IndexError(", "        if t_check < self.lags - 1:\n            raise IndexError(", ['C04'], 'lag feasibility guard off by one')
+m('M31', MOD, "        if t_check >= len(self.span) - self.leads:\n            raise IndexError(\n                f'Position", "        if t >= len(self.span) - self.leads:\n            raise IndexError(\n                f'Position", ['C04'], 'lead guard ignores negative spelling')
+m('M32', PAR, "                index = f'[t{self.index_}]'", "                index = f'[t{self.index_ - 1}]' if self.index_ < -1 else f'[t{self.index_}]'", ['C04'], 'lags deeper than 1 rendered one period too deep')
+m('M33', PAR, "                index = f'[t+{self.index_}]'", "                index = f'[t-{self.index_}]' if self.index_ > 1 else f'[t+{self.index_}]'", ['C04'], 'leads beyond 1 rendered as lags')
+m('M34', MOD, "                    if errors == 'raise':\n                        self.status[t] = SolutionStatus.ERROR.value\n                        self.iterations[t] = iteration\n\n                    raise SolutionError(\n                        f'Error after", "                    if errors == 'raise':\n                        self.status[t] = SolutionStatus.ERROR.value\n                        self.iterations[t - 1] = iteration\n\n                    raise SolutionError(\n                        f'Error after", ['C04', 'C06'], 'error bookkeeping lands on the previous period')
+m('M35', MOD, "        # Error if `min_iter` exceeds `max_iter`\n        if min_iter > max_iter:\n            raise ValueError(\n                f'Value of `min_iter` ({min_iter}) '\n                f'cannot exceed value of `max_iter` ({max_iter})'\n            )\n\n        # Error if the period", "        # Error if the period", ['C04', 'C02'], 'min_iter guard removed from solve_t (max_iter loop simply never converges)')
+m('M36', MOD, "            for name in self.endogenous:\n                self.__dict__['_' + name][t] = self.__dict__['_' + name][t + offset]", "            for name in self.names:\n                self.__dict__['_' + name][t] = self.__dict__['_' + name][t + offset]", ['C04'], 'offset copy overwrites exogenous variables too')
